@@ -69,7 +69,9 @@ T pop_arg(va_struct *vsp, format_options *opts) {
 			*get_union_member(i) = arg;
 		}
 
-		vsp->num_args = opts->arg_pos + 1;
+		// Never forget arguments that were already fetched for a higher position.
+		if(vsp->num_args < opts->arg_pos + 1)
+			vsp->num_args = opts->arg_pos + 1;
 		return *get_union_member(opts->arg_pos);
 	}
 
